@@ -391,9 +391,6 @@ def run(ctx):
     ctx.cov["domain_stream"] = {"notes": dnote, "packets": sum(1 for o in dops if o.startswith("pkt ")),
                                 "entries_verified": cnt.get("dom.entries_verified", 0),
                                 "cached_name_missing_in_kernel_map": cnt.get("dom.cached_name_missing_in_kernel_map", 0)}
-    if cnt.get("dom.cached_name_missing_in_kernel_map", 0):
-        ctx.say(f"NOTE property=C02 [c02dom] {cnt['dom.cached_name_missing_in_kernel_map']} address(es) of cached names are absent from domain_routing_map "
-                "after a reload/rebuild (the kernel then routes them without the domain; equality of what IS installed is checked) — C10's subject")
 
     # ---- kernel error paths: native route() vs model on hand-written maps
     eops, emerged, emodel, _ = run_stream(ctx, "c02err", cdrv)
